@@ -64,11 +64,37 @@ DESC = {
  ("wt2_C",2):("C06","lzhuf","overflow buffer []byte drained with buf = buf[:0] instead of buf[n:]","read buffer shorter than the pending tail of a match (1-byte reads)"),
  ("wt2_C",3):("C08","lzhuf","end-of-stream tested before the bit-reader error; Close no longer looks at the bit reader","stream without CRC (or recomputed CRC) cut inside its last symbol"),
  ("wt2_C",4):("C08","lzhuf","'unused' upper halves of the position tables removed (dCode/dLen [0xD0])","non-canonical stream: match symbol followed by 8 bits >= 0xD0"),
+ ("wt3_G",1):("C04","fbb","the two SetSent loops merged and moved before the acknowledgement Peek","transfer accepted in FS but refused by the receiver after the data (damaged in transit)"),
+ ("wt3_G",2):("C04","fbb","STX block length clamped to the remaining announced size instead of rejecting the frame","length byte of the last STX block substituted by a larger value"),
+ ("wt3_G",3):("C05","fbb","data loop rewritten with buffer.Next: trailing empty block 02 00 when the size is a multiple of the block size","compressed size (minus offset) divisible by 125"),
+ ("wt3_G",4):("C05","fbb","twosComplement helper returns 0x100 for a sum that is 0 mod 256","proposal block whose byte sum is 0 mod 256"),
+ ("wt3_G",5):("C18","fbb","charset translator cached per charset: conversion results share a scratch buffer","a second StringToBody while the first result is still in use"),
+ ("wt3_H",1):("C06","lzhuf","encodeEnd (flush of the last partial byte) moved inside 'if w.crc16'","Writer without CRC header and an encoded bit length that is not a multiple of 8"),
+ ("wt3_H",2):("C08","lzhuf","Close size check simplified to header.size != state.pos (pending overflow ignored)","caller stops reading inside the last match and calls Close"),
+ ("wt3_H",3):("C08","lzhuf","fast path copies a whole match when it fits the caller's buffer, skipping the declared-size clip","declared size inside a match and a read buffer with room for the whole match"),
+ ("wt3_H",4):("C08","lzhuf","Reader.crc16 field removed: Close tests header.crc != 0 && header.crc != Sum()","B2 stream whose CRC field is 00 00 while the real CRC is non-zero"),
+ ("wt3_I",1):("C10","mailbox","SetSent returns early when sent/<MID> already exists","a stale copy of the MID in sent/ (message queued again after it was sent)"),
+ ("wt3_I",2):("C10","mailbox","GetInboundAnswer looks in all four folders","proposed MID present in out/, sent/ or archive/ but not in in/"),
+ ("wt3_I",3):("C11","mailbox","Prepare rolls leftover *.tmp files forward by renaming them to the final name","crash strictly inside the temp-file write, then a restart through Prepare"),
+ ("wt3_I",4):("C11","mailbox","GetInboundAnswer globs in/<MID>.* (matches the leftover .tmp)","ProcessInbound crash between temp creation and rename, then a proposal for the MID"),
+ ("wt3_I",5):("C12","mailbox","store helper writes to the message's X-FilePath header if set","received message carrying an X-FilePath header"),
+ ("wt3_K",1):("C01","fbb","STX loop refactored to full blocks then remainder (>=): empty STX 0 block","accepted message whose compressed size is n*125"),
+ ("wt3_K",2):("C01","fbb","payload size field checked against the proposed size before the format switch (hits gzip payloads)","GZIP_EXPERIMENT=1 on both sides and any accepted message"),
+ ("wt3_K",3):("C02","fbb","one-minute deadline before the error echo replaced by clearing the deadline","storage error on a non-last message over a link with back pressure"),
+ ("wt3_K",4):("C02","mailbox","ProcessInbound failure path: shadowed err, bare return reports nil","real file-system failure while storing an inbound message"),
+ ("wt3_K",5):("C03","fbb","F> checksum parsed from line[3:5] with the guard still len(line) < 3","prompt of 3 or 4 characters (F> 3, F>3B)"),
+ ("wt3_K",6):("C03","fbb","offset guard compares with the uncompressed size","FS !n with compressedSize < n <= size"),
+ ("wt3_L",1):("C13","transport/ax25/agwpe","callsign.equal compares only len(filter call) bytes","frame from/to a station whose callsign has the connection's callsign as a proper prefix (SSID)"),
+ ("wt3_L",2):("C13","transport/ax25/agwpe","fail-fast isClosed guard at the top of Conn.Read, before the pending data","remote 'd' frame processed while data is still unread"),
+ ("wt3_L",3):("C14","transport/ardop","tnc.connected set after Dial built the conn instead of on CONNECTED","ARQ data frame arriving before the TNC answered the MYCALL query of Dial"),
+ ("wt3_L",4):("C15","transport/telnet","deferred reset clears only the read deadline","Write on the connection after the dial deadline has passed"),
+ ("wt3_L",5):("C19","transport","digi parsing by strings.Split; length check on the whole path","short target together with a digi path or trailing slash"),
+ ("wt3_L",6):("C20","catalog","decToMinDec in integer arithmetic with int() truncation","minutes whose fifth decimal is 5 or more"),
 }
 results = {}
 for f in ['/tmp/seedfirst.txt'] + sorted(glob.glob('/tmp/seedbatch*.txt')) + sorted(glob.glob('/tmp/seedfinal*.txt')):
     for l in open(f):
-        m = re.match(r'SEED (wt2?_\w+)/(\d+): clean-demo=(\d+) build=(\d+) suite=(\d+) demo-with-patch=(\d+) checks:(.*)', l)
+        m = re.match(r'SEED (wt\d?_\w+)/(\d+): clean-demo=(\d+) build=(\d+) suite=(\d+) demo-with-patch=(\d+) checks:(.*)', l)
         if m:
             results[(m.group(1), int(m.group(2)))] = dict(clean_demo=int(m.group(3)), build=int(m.group(4)), suite=int(m.group(5)), demo_with_patch=int(m.group(6)), checks=m.group(7).strip(), log=os.path.basename(f))
 rows = []
